@@ -8,6 +8,8 @@
       /c11/deepext      a file with Tune!DeepExtents(bs) extents: extent tree of depth >= 2 (interior index blocks)
       /c11/fullroot     an htree directory whose dx ROOT is exactly full (count = limit): Tune!FullRootEntries names
       /c11/fragdir      a directory with Tune!DirExtents discontiguous blocks: extent tree of depth >= 1
+    and, per profile, the variants of Tune!CatVariants: "<profile>+i11" = the same image with lost+found re-created in
+    another inode, so that the first ordinary inode (s_first_ino = 11) is FREE (catalogue element FirstInoFree).
     Built with the scratch-built debugfs / e2fsck of the tree under test, cached next to the build.
 (2) census(): what of that content really is in an image (through the independent reader) -- TLC decides with
     Tune!UniverseOK whether the universe contains every catalogue element; if it does not the check is broken.
@@ -224,7 +226,7 @@ def stale_classes(R, P):
     return sorted(bad)
 
 
-def census(path):
+def census(path, variant=""):
     """The catalogue-relevant content of an image: numbers for Tune!UniverseOK."""
     R, P = _reader(path)
     if "fatal" in P or "reader_err" in P:
@@ -251,7 +253,9 @@ def census(path):
                 dx["%s_%s" % (kind, "full" if c == l else "notfull")] += 1
         if rec.get("file_acl"):
             nxattrblk += 1
-    return {"nusr": len(ids["usr"]), "ngrp": len(ids["grp"]), "nprj": len(ids["prj"]), "file_depth": fdepth, "dir_depth": ddepth,
+    first_free = 0 if any(a <= R.first_ino <= b for a, b in P["ibitmap"]) else 1
+    return {"variant": variant, "first_ino_free": first_free,
+            "nusr": len(ids["usr"]), "ngrp": len(ids["grp"]), "nprj": len(ids["prj"]), "file_depth": fdepth, "dir_depth": ddepth,
             "dx_root_full": dx["root_full"], "dx_interior_full": dx["interior_full"], "dx_root_notfull": dx["root_notfull"],
             "dx_interior_notfull": dx["interior_notfull"], "xattr_blocks": nxattrblk, "stale": stale_classes(R, P)}
 
@@ -370,6 +374,41 @@ def _build_one(b, basedir, outdir, p, prm, cat):
     return info
 
 
+def _build_variant(b, outdir, p, variant):
+    """<p>+i11: lost+found is removed, a scratch file takes the freed first ordinary inode, lost+found is made again (in the
+    next free inode), the scratch file is removed: s_first_ino is free.  e2fsck -fy brings quota files up to date."""
+    env = tool_env(b)
+    dbg = os.path.join(b, "debugfs", "debugfs")
+    fsck = os.path.join(b, "e2fsck", "e2fsck")
+    name = "%s+%s" % (p, variant)
+    img = os.path.join(outdir, name + ".img")
+    info = {"profile": name, "ok": False}
+    if variant != "i11":
+        info["why"] = "unknown catalogue variant %s" % variant
+        return info
+    shutil.copyfile(os.path.join(outdir, p + ".img"), img)
+    cmds = ["rmdir lost+found", "write %s c11_scratch_first_ino" % os.path.join(outdir, "pad.src"), "mkdir lost+found"] + \
+           ["expand lost+found"] * 3 + ["rm c11_scratch_first_ino"]
+    rc, out, err = sh([dbg, "-w", "-f", "-", img], env=env, timeout=300, input=("\n".join(cmds) + "\n").encode())
+    bad = [l for l in err.decode("utf8", "replace").splitlines() if l and not l.startswith("debugfs ")]
+    if rc != 0 or bad:
+        info["why"] = "debugfs (variant): rc %d %s" % (rc, " | ".join(bad[:4])[:400])
+        return info
+    rc, out, err = sh([fsck, "-fy", img], env=env, timeout=300)
+    if rc not in (0, 1):
+        info["why"] = "e2fsck -fy (variant): exit %d %s" % (rc, out.decode("utf8", "replace")[-300:])
+        return info
+    rc, out, err = sh([fsck, "-fn", img], env=env, timeout=300)
+    if rc != 0:
+        info["why"] = "e2fsck -fn of the variant image: exit %d %s" % (rc, out.decode("utf8", "replace")[-400:])
+        return info
+    info["content"] = census(img, variant)
+    info["ok"] = "fatal" not in info["content"]
+    if not info["ok"]:
+        info["why"] = "reader: " + info["content"]["fatal"]
+    return info
+
+
 def rich_images(b, basedir, profiles, params, cat):
     """Returns (dir, {profile: info}); info["content"] = census.  Cached by build stamp + base directory + catalogue + this file."""
     stamp = open(os.path.join(b, ".verif_stamp")).read().strip()[:16]
@@ -389,6 +428,8 @@ def rich_images(b, basedir, profiles, params, cat):
         _sources(outdir, cat["rows"])
         with cf.ThreadPoolExecutor(max_workers=8) as ex:
             infos = list(ex.map(lambda p: _build_one(b, basedir, outdir, p, params[p], cat), profiles))
+            todo = [(p, v) for p in profiles for v in cat.get("variants", []) if v and any(i["profile"] == p and i["ok"] for i in infos)]
+            infos += list(ex.map(lambda pv: _build_variant(b, outdir, pv[0], pv[1]), todo))
         res = {i["profile"]: i for i in infos}
         with open(meta, "w") as f:
             json.dump(res, f, indent=1)
